@@ -62,6 +62,39 @@ SEEDS = {
     "C20-2": ("C20", ["C20"], "witness: success counter incremented before write.Set in a cosignAndStore helper", "an update whose final Set fails (storage fault or lost CAS race)"),
 }
 
+# round 2 (same protocol, fresh agents, asked for interaction-type defects); stored as <ID>-3 / <ID>-4
+SEEDS2 = {
+    "C01-3": ("C01", ["C05", "C01"], "witness: memo of the parsed latest cosigned checkpoint refreshed in signChkpt (before Set); Update checks requests against the memo", "two overlapping updates of one log (the loser's checkpoint becomes the memo) plus one later ordinary request extending the loser"),
+    "C01-4": ("C01", ["C05", "C01"], "sql: lazily opened transaction (WriteOps does not begin, GetLatest reads outside, Set opens the tx)", "SQL storage and two overlapping updates of one log"),
+    "C03-3": ("C03", ["C03", "C07"], "witness: cosignAndStore helper ends with 'return signed, err' (fresh cosignature returned together with the Set error)", "a Set failure (storage fault or in-memory write conflict) after all validation passed"),
+    "C03-4": ("C03", ["C03", "C07"], "sql: read cache filled by a defer in Set that ignores the COMMIT result; plain reads answer from the cache", "SQL storage, a COMMIT failure after a successful INSERT, then a read of the latest checkpoint"),
+    "C05-3": ("C05", ["C05"], "sql: optimistic compare-before-commit that skips the check when nothing was stored at read time (no tx held between read and write)", "two overlapping first-use updates of one log on SQLite"),
+    "C05-4": ("C05", ["C05"], "witness: 'latest cosigned' sync.Map cache published after Set and Close; GetCheckpoint serves from it", "an update preempted between its Set and its return (e.g. in Close) while a larger update completes: readers see the size go down"),
+    "C06-3": ("C06", ["C06"], "sql: placeholder row (logID, NULL) inserted and auto-committed before the transaction; cleaned up only by the writer that created it", "a kill between the placeholder insert and the commit of a log's first update"),
+    "C06-4": ("C06", ["C06"], "sql: no transaction; Set = DELETE of the row read, then INSERT (two auto-commits)", "a kill between the DELETE and the INSERT of a growth/refresh (log forgotten, fork accepted as first use)"),
+    "C07-3": ("C07", ["C07"], "sql.getLatestCheckpoint via Query/rows.Next without rows.Err (row-fetch error = NotFound)", "a driver error while fetching the previous checkpoint's row"),
+    "C07-4": ("C07", ["C07"], "witness: openLatest helper opens the write handle and reads; on a non-NotFound read error it returns without closing the handle", "a read error inside Update on a one-connection store, then any operation"),
+    "C09-3": ("C09", ["C09"], "witness: 'old > size' computed as int64(next.Size - oldSize) < 0 (wraps for differences >= 2^63)", "old size 2^64-1 or 2^63+9 against a small checkpoint; size 2^63 with old 0"),
+    "C09-4": ("C09", ["C09", "C08"], "witness: proof-length guard bits.Len64(size) refuses maximal-length correct proofs to non-power-of-two sizes", "growth pairs such as 3->5, 5->7, 7->9, 15->17, 1023->1025"),
+    "C10-3": ("C10", ["C10"], "witness wraps ErrRootMismatch with fmt.Errorf(%w); the bastion handler switches on identity and answers 500", "same size, different root through the endpoint with the real witness"),
+    "C10-4": ("C10", ["C10"], "bastion handler memoises the held size per log and answers stale (409+size) without asking the witness", "a request with an old size below the held size that also has a bad signature (403) or old size above the checkpoint size (400)"),
+    "C13-3": ("C13", ["C13"], "feeder: proof memo across retries recorded before the FetchProof error check (a failed fetch stores a nil proof)", "one transient fetch-proof failure while the witness holds a smaller checkpoint"),
+    "C13-4": ("C13", ["C13"], "witnessAdapter maps codes.Unknown (every plain error) as well as NotFound to os.ErrNotExist", "a plain storage read error under the adapter while the witness holds a checkpoint"),
+    "C14-3": ("C14", ["C14", "C07", "C03"], "witness: memo of the latest parsed checkpoint refreshed after the proof verifies but before Set commits", "one failed store of a growing update (then every later request is answered stale until restart)"),
+    "C14-4": ("C14", ["C14", "C07"], "sql writer: Close skips Rollback when nothing was written (leaks read transactions on refusals)", "SQLite file storage, a refused update on one log, then growth of another log"),
+    "C16-3": ("C16", ["C16"], "http getCheckpoint lower-cases the requested log ID before the lookup", "an upper/mixed-case spelling of a stored hex ID (must be 404)"),
+    "C16-4": ("C16", ["C16"], "client maps a 404 to os.ErrNotExist only if the body contains the in-memory store's message", "SQL-backed witness and a log without checkpoint, read through the bundled client"),
+    "C19-3": ("C19", ["C19", "C11"], "parseBody pre-allocates 63 proof slots and indexes them; the guard is off by one (64th line panics)", "a body with 64 or more valid proof lines"),
+    "C19-4": ("C19", ["C19"], "pixel feeder converts the log-signed root with tlog.Hash(to.Hash) (panics for roots shorter than 32 bytes)", "Pixel feeder, log-signed checkpoint with a 0/5-byte root, witness holding an earlier checkpoint"),
+    "C20-3": ("C20", ["C20"], "witness: signAndStore helper defers the success increment before Set", "a Set failure after verification passed"),
+    "C20-4": ("C20", ["C20"], "witness: split-view counter guarded by a per-log memo of the last reported conflicting root", "the same conflicting root presented twice in a row to one log"),
+}
+SRC = {}
+for _sid in SEEDS2:
+    _pid, _k = _sid.split("-")
+    SRC[_sid] = f"/tmp/seed2/{_pid}/_out/{int(_k) - 2}"
+SEEDS.update(SEEDS2)
+
 
 def sh(cmd, cwd=None, timeout=3600):
     r = subprocess.run(cmd, cwd=cwd, env=ENV, shell=isinstance(cmd, str), stdout=subprocess.PIPE, stderr=subprocess.STDOUT, text=True, timeout=timeout, errors="replace")
@@ -72,7 +105,7 @@ def store():
     os.makedirs(SEEDED, exist_ok=True)
     for sid, (prop, checks, what, needs) in SEEDS.items():
         pid, k = sid.split("-")
-        src = f"/tmp/seed/{pid}/out/{k}"
+        src = SRC.get(sid, f"/tmp/seed/{pid}/out/{k}")
         if not os.path.exists(os.path.join(src, "patch.diff")):
             for alt in (f"/tmp/seed/{pid}/_out/{k}", f"/tmp/seed/{pid}/.out/{k}"):
                 if os.path.exists(os.path.join(alt, "patch.diff")):
